@@ -126,6 +126,16 @@ class Ctx:
     def _decide(self, goal):
         """validity of `goal` under the path condition: ('unsat'|'sat'|'unknown', model, dt, backend)"""
         neg = z3.Not(goal)
+        if getattr(self, "prefer_cancel", False):
+            # contracts whose obligations are big rational-function identities ask for the algebraic back end first
+            t0 = time.time()
+            try:
+                from . import ratid
+                ok, dens = ratid.identity(goal)
+                if ok and all(self.sat(d == 0, timeout=5000)[0] == z3.unsat for d in dens):
+                    return z3.unsat, None, time.time() - t0, "sympy-cancel"
+            except Exception:  # noqa: BLE001
+                pass
         r, m, dt = self.sat(neg, timeout=3000)
         if r != z3.unknown:
             return r, m, dt, "z3"
